@@ -79,6 +79,8 @@ class Universe(object):
             for _ in range(rng.choice([2, 3, 4])):
                 n = rng.choice([1, 2, 3, 5, 8] + SPECIAL_LENS[:4])
                 self.raw.append(filler(rng, n, "bytes") + b"|")
+            if rng.random() < p.get("emptystem", 0.3):
+                self.raw.append(b"|")        # the shortest stem there is: one byte, the separator alone
         self.lrus = []
         target = p.get("nlrus", 14)
         guard = 0
